@@ -1,7 +1,7 @@
 (* C16 part (c) - the lazily parsed MP4 box tree: serialisation is invariant under successful forcings and its length
    is the encoded length.  Statements only; proofs in Mp4/BoxProofsLazy.v.
-   (Finding D9 - a FAILED lazy parse leaves a shortened BytesMut behind - is outside the model: force_cont /
-   force_table return an error and no new state; see the header of Mp4/BoxProofsLazy.v.) *)
+   (Finding D9 - a FAILED lazy parse leaves a shortened BytesMut behind: force_cont / force_table of Mp4/Box.v return an error
+   and no new state; the state-passing model Mp4/BoxFail.v has that state, and Props/C16f.v ties the two together.) *)
 From Coq Require Import List NArith Bool.
 From MS Require Import Base.Bytes Base.Outcome Mp4.Header Mp4.Box Mp4.BoxLazy Mp4.BoxOps Mp4.BoxProofsLazy Mp4.BoxOpsProofs.
 Open Scope N_scope.
